@@ -1372,6 +1372,13 @@ class Tensor:
                         f"`grad` must be broadcast-compatible with `tensor.shape={self.shape}`\n"
                         f"Got `grad.shape={_grad.shape}`"
                     )
+            if not (_grad.flags.c_contiguous and self.data.flags.c_contiguous):
+                # Keep the gradient's memory layout in step with that of the
+                # tensor's data, so that the view-ops that get replayed on the
+                # gradient - for the views of `self` - produce views of it
+                seed = np.empty_like(self.data)
+                seed[...] = _grad
+                _grad = seed
         else:
             _grad = np.full_like(self.data, fill_value=1.0)
 
